@@ -50,10 +50,14 @@ class Opaque:
 class FnTable:
     """A callable given by a finite table (decoded from solver models) with a default."""
 
-    def __init__(self, table, default=None, raises=None):
-        self.table, self.default, self.raises = table, default, raises or []
+    def __init__(self, table, default=None, raises=None, nullary=None):
+        self.table, self.default, self.raises, self.nullary = table, default, raises or [], nullary
 
     def __call__(self, *a):
+        if not a:
+            if isinstance(self.nullary, Raised):
+                raise RuntimeError(self.nullary.cls)
+            return self.nullary
         key = a[0] if len(a) == 1 else tuple(a)
         for k, v in self.table:
             if type(k) is type(key) and k == key:
@@ -136,7 +140,8 @@ def dec(j, make_empty=EmptyStandIn, make_cell=None):
             return Raised(j['$exc'], j.get('msg', ''), j.get('mro', ()))
         if '$fn' in j:
             return FnTable([(dec(k, make_empty, make_cell), dec(x, make_empty, make_cell)) for k, x in j['$fn']],
-                           dec(j.get('default'), make_empty, make_cell))
+                           dec(j.get('default'), make_empty, make_cell),
+                           nullary=dec(j.get('nullary'), make_empty, make_cell))
         if '$lam' in j:
             return eval(j['$lam'], {'datetime': datetime, 'math': math})  # contract-authored text only
         if '$cell' in j:
@@ -147,6 +152,16 @@ def dec(j, make_empty=EmptyStandIn, make_cell=None):
             return make_cell(*vals, h)
         if '$repr' in j:
             return Opaque(j['$repr'])
+        if '$cls' in j:
+            import builtins
+            return {'NoneType': type(None), 'date': datetime.date, 'datetime': datetime.datetime,
+                    'timedelta': datetime.timedelta}.get(j['$cls'], getattr(builtins, j['$cls'], object))
+        if '$td' in j:
+            return datetime.timedelta(days=j['$td'][0], seconds=j['$td'][1])
+        if '$obj' in j:
+            o = j['$obj']
+            fields = {k: dec(x, make_empty, make_cell) for k, x in o['fields'].items()}
+            return ('Obj', o.get('cls'), fields)
     raise ValueError(f'cannot decode {j!r}')
 
 
